@@ -32,10 +32,22 @@ def _run_batch(ctx, binary, cases, tag):
                             out_file=base + ".jsonl")
         rrs.append(rr)
         got = 0
+        begun = None
         for r in rr.records:
-            if r.get("t") == "c17case":
+            if r.get("t") == "c17begin":
+                begun = r["id"]
+            elif r.get("t") == "c17case":
                 recs[r["id"]] = r
                 got += 1
+                if begun == r["id"]:
+                    begun = None
+        if begun is not None and begun not in recs and rr.rc not in (0, 5) and not rr.timed_out:
+            # the process died inside this case (sanitizer abort: the report is ingested as a violation by the caller);
+            # it is accounted for by that report and must not be run again
+            recs[begun] = dict(t="c17case", id=begun, crashed=True, rc=rr.rc, events=[], san=[x["key"] for x in rr.san_reports])
+            got += 1
+            if not rr.san_reports:
+                problems.append("case %s: harness process died (rc=%s) without a sanitizer report, stderr=%s" % (begun, rr.rc, rr.err[-300:]))
         for f in (base + ".cases", base + ".jsonl"):
             try:
                 os.unlink(f)
@@ -47,7 +59,7 @@ def _run_batch(ctx, binary, cases, tag):
         if got == 0:
             problems.append("batch %s made no progress: rc=%s timed_out=%s stderr=%s" % (tag, rr.rc, rr.timed_out, rr.err[-300:]))
             break
-        if rr.rc not in (0, 5) and not rr.san_reports:
+        if rr.rc not in (0, 5) and not rr.san_reports and begun is None:
             problems.append("batch %s: harness rc=%s after %d cases, stderr=%s" % (tag, rr.rc, got, rr.err[-300:]))
         todo = rest
     for c in cases:
@@ -59,13 +71,15 @@ def _run_batch(ctx, binary, cases, tag):
 def _run_all(ctx, binary, cases, tag, width=None):
     width = width or vf.NCPU
     nb = max(1, min(len(cases), width * 3))
-    order = sorted(cases, key=lambda c: -c.cost())
+    solo = [[c] for c in cases if getattr(c, "solo", False)]
+    order = sorted((c for c in cases if not getattr(c, "solo", False)), key=lambda c: -c.cost())
     batches = [[] for _ in range(nb)]
     loads = [0] * nb
     for c in order:                      # greedy balance by estimated cost
         i = loads.index(min(loads))
         batches[i].append(c)
         loads[i] += c.cost()
+    batches = solo + batches             # cases that may end their process (or run long) get a process of their own
     jobs = [(lambda b=b, i=i: _run_batch(ctx, binary, b, "%s-%d" % (tag, i))) for i, b in enumerate(batches) if b]
     recs, problems = {}, []
     for r, p, rrs in vf.run_many(ctx, jobs, workers=width):
@@ -303,6 +317,21 @@ def _enumerate(ctx, geo, thorough):
         first = Req(rng.choice(["GET", "POST", "PUT"]), rng.choice([0, 2]), [Fault(k, cls="%s|%s|%s" % (ver, var, fr))])
         cases.append(Case("persistence", [first, Req(nxt, 1, [OK]), Req("GET", 0, [OK])], ct=200))
 
+    # M. large retry budgets (shift / counter boundaries of the back-off) against a peer that fails every attempt in a
+    #    retry-eligible way; the back-off is virtual (sdiv=1e9), attempts are counted, never timed. The first budget+3
+    #    attempts fail, the next one would succeed: a client that exceeds its budget is seen doing so and still terminates.
+    uniM = [(b, sc) for b in (6, 7, 10, 31, 32, 63, 64) for sc in
+            ("GET:close-no-answer", "PUT:rst-after-request", "DELETE:fin-no-answer", "POST:refuse", "PATCH:refuse", "get:refuse")]
+    for b, sc in space("large-budget:budget*scenario", uniM, uniM):
+        m, how = sc.split(":")
+        if how == "refuse":
+            r = Req(m, b, [OK], refuse=b + 3)
+        else:
+            f = {"close-no-answer": Fault("close-after-response-bytes", 0), "rst-after-request": Fault("rst-after-request"),
+                 "fin-no-answer": Fault("fin-after-response-bytes", 0)}[how]
+            r = Req(m, b, [f] * (b + 3) + [OK], stop=b + 3)
+        cases.append(Case("large-budget", [r], ct=200, sdiv=10 ** 9, solo=True))
+
     # G. reuseConnections=false: the client itself says "Connection: close"
     uniG = [(m, f) for m in methods for f in (OK, Fault("rst-after-request"), Fault("surplus"), Fault("fin-after-response-bytes", 40))]
     pickG = uniG if thorough else rng.sample(uniG, 20)
@@ -453,7 +482,9 @@ def run(ctx):
                 "already read); on a silent peer the attempt is given up within timeout + 250 ms + 6x measured scheduling noise "
                 "(a miss must reproduce 3x in isolation); with leaseAcquireTimeout set on a client shared across hosts, every attempt reaches the wire or "
                 "gives up within leaseAcquireTimeout + connect timeout (+ the same allowance) and a call returns within attempts x (lease + connect + "
-                "request timeout) + back-off, whatever other callers do on other hosts (same 3x isolation rule); a caller gets the response of its own request. "
+                "request timeout) + back-off, whatever other callers do on other hosts (same 3x isolation rule); a caller gets the response of its own request; "
+                "the back-off is judged logically only (budgets up to 64 with virtual sleeps): every retry preceded by a back-off, none below the 100 ms base, "
+                "requested durations never decreasing. "
                 "distinct = hash(group, (method,budget,refuse,blackhole) per request, server programs executed, outcomes, "
                 "transmissions per request, back-offs per request, keep-alive, threads)")
     ctx.assumptions = [
@@ -469,7 +500,7 @@ def run(ctx):
                     "silent_attempts", "timeouts_reported", "reuse_of_clean_connection", "server_rst", "server_fin",
                     "taint:surplus", "taint:malformed", "taint:close-delimited", "taint:resp-connection-close",
                     "connects_never_accepted", "ex:HttpRequestNotSentError", "ex:HttpFramingError", "blackholed_connects",
-                    "lease_timeouts_reported", "lease_phase_checked")
+                    "lease_timeouts_reported", "lease_phase_checked", "backoff_sleeps_checked")
 
 
 class _ReplayReq:
